@@ -66,6 +66,7 @@ pub fn pump_polling(cfg: &Cfg, rep: &mut Report, timeout: u64, stream: usize) {
         vec![m, Ev::Tick(hostile_ticks(t / 2)[1]), p],
         vec![m, Ev::Tick(hostile_ticks(t / 2)[2]), p],
         vec![m, Ev::Tick(hostile_ticks(t / 2)[3]), p],
+        vec![m, Ev::Tick(hostile_ticks(t / 2)[4]), p],
     ];
     if cfg.thorough && cfg.release && !cfg.as_c18 {
         pump(cfg, rep, &starts, &cycles_upto2(&syms, &units), 2_000, &tail, true);
@@ -87,7 +88,7 @@ pub fn random_poll_histories(cfg: &Cfg, rep: &mut Report, total: u64, stream: u6
         let mut with_report = 0u64;
         while done < per {
             let len = rng.range(5, 200);
-            let timeout = *rng.pick(&[0u64, 1, T2, T2, 5 * TICK, T_INF, 10_000_000, 900_000_000, ONE_S, 1_500_000_000, ONE_H, T_YEAR, (1u64 << 53) + 1]);
+            let timeout = *rng.pick(&[0u64, 1, T2, T2, 5 * TICK, T_INF, 10_000_000, 900_000_000, ONE_S, 1_500_000_000, ONE_H, T_YEAR, (1u64 << 53) + 1, T_150Y]);
             let t = if timeout == T_INF { 7 * TICK } else { timeout };
             let mut ticks: Vec<u64> = if timing_focus {
                 vec![t.saturating_sub(1), t, t + 1, 1, t / 2, t.saturating_sub(1), t]
@@ -98,7 +99,7 @@ pub fn random_poll_histories(cfg: &Cfg, rep: &mut Report, total: u64, stream: u6
                 // steps just past 2^32 ns, 1 s, 2^32 us, 1 h (offset below the timeout)
                 let h = rng.below(t.max(1));
                 ticks.extend_from_slice(&hostile_ticks(h));
-                ticks.push(hostile_ticks(h)[rng.below(4) as usize] - h.min(1) - 1);
+                ticks.push(hostile_ticks(h)[rng.below(5) as usize] - h.min(1) - 1);
             }
             let nvalues = *rng.pick(&[2u8, 3, 4, 128, 200, 200]);
             let chans = *rng.pick(&[1u8, 1, 2, 3, 16]);
@@ -227,6 +228,16 @@ pub fn run_templates(base: &PollMon, c: u8, prefix: &[String], rep: &mut Report)
     let seven = PnM { ch: c, number: 5 * 128 + 6, value: 44, registered: false, is14: false, dt: 0 };
     let fourteen = PnM { ch: c, number: 5 * 128 + 6, value: 44 * 128 + 33, registered: false, is14: true, dt: 0 };
     let run = |evs: &[(Ev, Option<Outs>, &str)], rep: &mut Report| {
+        // the mock clock is a u64 of nanoseconds: a template whose clock steps would leave that
+        // range from this prior state cannot be played (its expectations assume time advances)
+        let total = evs.iter().try_fold(base.now, |acc, (e, _, _)| match e {
+            Ev::Tick(n) | Ev::TickPoll(n, _) => acc.checked_add(*n),
+            _ => Some(acc),
+        });
+        if total.is_none() {
+            rep.count("templates_skipped_at_the_end_of_the_mock_clock_range", 1);
+            return;
+        }
         let mut mon = base.clone();
         let mut hist: Vec<Ev> = Vec::new();
         for (e, want, what) in evs {
@@ -439,7 +450,7 @@ pub fn run_c13(cfg: &Cfg, rep: &mut Report) {
         // very long timeouts: one year (beyond exact f64 seconds; tick = half a year) and
         // durations of 2^64 ns and more (must behave as "never")
         let c = crate::util::rotating_channel(cfg, 9);
-        let mut setups: Vec<(PollMon, u64)> = vec![(PollMon::new(T_YEAR), T_YEAR / 2)];
+        let mut setups: Vec<(PollMon, u64)> = vec![(PollMon::new(T_YEAR), T_YEAR / 2), (PollMon::new(T_150Y), T_150Y / 2)];
         for d in huge_durations().iter().take(if cfg.thorough { 5 } else { 2 }) {
             setups.push((PollMon::new_huge(*d), TICK));
         }
@@ -641,12 +652,16 @@ fn play(
 ) {
     let t = mon.timeout;
     let mut hist: Vec<Ev> = Vec::new();
-    let late_step = |t: u64, rng: &mut Rng| -> u64 {
+    let late_step = |t: u64, now: u64, rng: &mut Rng| -> u64 {
         if t == 0 {
             *rng.pick(&[0u64, 1, 500])
         } else {
-            let hs = hostile_ticks(t / 2);
-            *rng.pick(&[t, t + 1, 3 * t, t, t + 1, hs[0], hs[1], hs[2], hs[3]])
+            // hostile steps count as "late" only when they are at least the timeout; the mock
+            // clock is a u64 of nanoseconds, so steps that would leave its range are not taken
+            let hs = hostile_ticks(t / 2).map(|h| h.max(t));
+            let cands = [t, t + 1, t.saturating_mul(3), t, t + 1, hs[0], hs[1], hs[2], hs[3], hs[4], hs[5]];
+            let fit: Vec<u64> = cands.iter().copied().filter(|s| now.checked_add(*s).is_some()).collect();
+            if fit.is_empty() { t } else { *rng.pick(&fit) }
         }
     };
     macro_rules! apply {
@@ -670,6 +685,11 @@ fn play(
     loop {
         let live: Vec<usize> = (0..plays.len()).filter(|i| !plays[*i].done()).collect();
         if live.is_empty() {
+            break;
+        }
+        if t != T_INF && mon.now.checked_add(t.saturating_add(TICK)).is_none() {
+            // the mock clock cannot move past another deadline: the sentence ends here
+            rep.count("c12_plays_cut_at_the_end_of_the_mock_clock_range", 1);
             break;
         }
         let pi = live[rng.below(live.len() as u64) as usize];
@@ -711,7 +731,7 @@ fn play(
                     }
                     (Deco::BigStepsAndNoise, 0..=1) | (Deco::Random, 2) => {
                         // big clock step (>= timeout) without a poll, also inside pairs
-                        let n = late_step(if t == T_INF { 5 * TICK } else { t }, rng);
+                        let n = late_step(if t == T_INF { 5 * TICK } else { t }, mon.now, rng);
                         apply!(Ev::Tick(n));
                         if in_pair {
                             rep.count("c12_big_steps_inside_pairs", 1);
@@ -760,7 +780,7 @@ fn play(
                 } || p.done();
                 if do_late && t != T_INF {
                     // advance so that anything pending on this channel is past its deadline, then poll
-                    let step = late_step(t, rng);
+                    let step = late_step(t, mon.now, rng);
                     apply!(Ev::Tick(step));
                     let p = &mut plays[pi];
                     let want: Outs = match p.pending_m {
@@ -979,7 +999,7 @@ pub fn run_c12(cfg: &Cfg, rep: &mut Report) {
         let mut id = 0u8;
         let mut sentences = 0u64;
         let mut case_i = 0usize;
-        for timeout in [0u64, T2, T_YEAR, ONE_S + 500_000_000] {
+        for timeout in [0u64, T2, T_YEAR, ONE_S + 500_000_000, T_150Y] {
             for (i, us) in seqs_ref.iter().enumerate() {
                 for (j, us2) in seqs2_ref.iter().enumerate() {
                     // one selection (j == 0 with empty second part) or two selections
